@@ -100,7 +100,8 @@ int main_impl(int argc, char** argv) {
     if (a == "--list") A.list = true; else if (a == "--variant") A.variant = nx(); else if (a == "--prog") A.program = nx(); else if (a == "--strategy") A.strategy = nx();
     else if (a == "--n") A.n = atol(nx().c_str()); else if (a == "--bound") A.bound = atoi(nx().c_str()); else if (a == "--seed") A.seed = strtoull(nx().c_str(), 0, 10);
     else if (a == "--out") A.out = nx(); else if (a == "--sched") A.replay = nx(); else if (a == "--prefix") A.prefix = nx(); else if (a == "--pct-depth") A.pct_depth = atoi(nx().c_str());
-    else if (a == "--points") { std::string w = nx(); if (w == "locks") vs::g_is_modelled = [](const void*, int kind) { return kind == vs::K_MLOCK || kind == vs::K_USERPT; }; }   // decision points: lock acquisitions and user points only
+    else if (a == "--points") { std::string w = nx(); if (w == "locks") vs::g_is_modelled = [](const void*, int kind) { return kind == vs::K_MLOCK || kind == vs::K_USERPT; };
+      else if (w == "rmw") vs::g_is_modelled = [](const void*, int kind) { return kind == vs::K_MLOCK || kind == vs::K_USERPT || kind == vs::K_CAS || kind == vs::K_XCHG || kind == vs::K_FADD || kind == vs::K_FSUB || kind == vs::K_FBIT; }; }   // + read-modify-write accesses (spin locks, flags)   // decision points: lock acquisitions and user points only
     else if (a == "--spurious") A.spurious = true; else if (a == "--noquarantine") g_quarantine = false; else if (a == "--time") A.time_limit = atof(nx().c_str()); else if (a == "--max-steps") A.max_steps = atol(nx().c_str());
     else { fprintf(stderr, "unknown argument %s\n", a.c_str()); return 2; } }
   if (A.list) { for (auto& v : variants()) printf("%s\n", v.name.c_str()); return 0; }
